@@ -61,6 +61,7 @@ type WorldCfg struct {
 	ClientCert        string // "", good, foreign, impostor (CA of the same name as the good one, other key)
 	ClientSecure      bool   // -s
 	ClientInsecure    bool   // -k
+	ClientCAFile      bool   // the client's CA certificate is given as a file (read at every connect)
 	UseHostName       bool   // upstream URL names server.test instead of the IP literal
 	ClientPassword    string // udp+pass: the client's secret (defaults to the server's)
 	Channels          []ChanCfg
@@ -453,7 +454,12 @@ func (w *World) NewClient(listeners []LsnCfg) (*clientCmd.Command, error) {
 		args = append(args, "-k")
 	}
 	if ca := caFor(cfg.ClientCA); ca != nil {
-		args = append(args, "--ca-certificate", ca.CertPEM)
+		if cfg.ClientCAFile {
+			// the client reads its CA certificates from a file whenever it builds a TLS configuration
+			args = append(args, "--ca-certificate-file", pkiFile("client-ca-"+cfg.ClientCA+".crt", ca.CertPEM))
+		} else {
+			args = append(args, "--ca-certificate", ca.CertPEM)
+		}
 	}
 	switch cfg.ClientCert {
 	case "good":
